@@ -465,6 +465,39 @@ func runC08(c *core.Ctx) {
 	if !checkString("final", a, g) {
 		return
 	}
+	// element types that cannot be compared (slices, funcs) and values that compare
+	// equal to the zero value without being it (-0.0): cells must hold exactly what was stored
+	if c.Index%4 == 2 && w >= 1 && h >= 1 {
+		tmpl := []int{7, 8}
+		var as arrays.Array2D[[]int]
+		var af arrays.Array2D[func() int]
+		fn := func() int { return 42 }
+		if p, pv := core.Catch(func() {
+			as = arrays.New2DFilled(w, h, tmpl)
+			af = arrays.New2DFilled(w, h, fn)
+			as.Fill(0, 0, w-1, h-1, tmpl)
+			_ = as.Clone()
+		}); p {
+			fail("New2DFilled:uncomparable-element-type", fmt.Sprintf("New2DFilled/Fill/Clone over a slice- or func-typed element panicked: %v", pv))
+			return
+		}
+		x, y := r.Intn(w), r.Intn(h)
+		if g := as.Get(x, y); len(g) != 2 || &g[0] != &tmpl[0] || af.Get(x, y) == nil || af.Get(x, y)() != 42 {
+			fail("New2DFilled:uncomparable-element-type", fmt.Sprintf("cell (%d,%d) of an array filled with a slice / func value does not hold that value", x, y))
+			return
+		}
+		nz := math.Copysign(0, -1)
+		fz := arrays.New2DFilled(w, h, nz)
+		fz2 := arrays.New2D[float64](w, h)
+		fz2.Fill(0, 0, w-1, h-1, nz)
+		fz3 := arrays.New2D[float64](w, h)
+		fz3.Set(x, y, nz)
+		if !math.Signbit(fz.Get(x, y)) || !math.Signbit(fz2.Get(x, y)) || !math.Signbit(fz3.Get(x, y)) || !math.Signbit(fz.Clone().Get(x, y)) {
+			fail("negative-zero-not-stored", fmt.Sprintf("cell (%d,%d) was given -0.0 (by New2DFilled / Fill / Set / Clone) and holds +0.0", x, y))
+			return
+		}
+		c.Count("uncomparable_and_negative_zero_elements", 1)
+	}
 	// the same cell model over other element types (every 4th random case)
 	if c.Index >= 49 && c.Index%4 == 1 {
 		ok := true
